@@ -2,7 +2,7 @@ SPECIFICATION Spec
 CONSTANTS
   Kinds <- AllKinds
   NPaths = {1, 3}
-  HalfSteps = {0, 2, 3, 8, 40, 41}
+  HalfSteps = {0, 3, 8, 41}
   MaxDepth = 3
 INVARIANT UniformShape
 INVARIANT NothingSurvives
